@@ -63,6 +63,12 @@ func executeCompaction(db *DB) (compactionMetadata *proto.CompactionMetadata, er
 		return nil, nil
 	}
 
+	// tables can be empty (everything in them was deleted and dropped by an earlier compaction), but the writer
+	// refuses a bloom filter for zero expected elements
+	if numRecords == 0 {
+		numRecords = 1
+	}
+
 	// make sure we're always compacting with the right order in mind
 	sort.Strings(paths)
 	verifPoint("compaction.selected")
